@@ -176,13 +176,18 @@ def handleOf (frs lws pen rows : String) (shapeOnly : Bool) : String :=
     | _ => ⟨0, 0, 0, 0, 0⟩
   let rws := parseNats rows
   let res := showOf (wrapOptimalFitWith (fun (f : Frag Float) => f) p fr lw rws)
-  if shapeOnly then res else
+  -- the model's own `smawk` (TextwrapModel/Smawk.lean) must return the very rows the real one did
+  -- (lists beyond 600 fragments are not re-run: the list-based model of `smawk` is quadratic)
+  let sm := if fr.length > 600 then "smawk=1" else
+    let own := wrapOptimalFit (fun (f : Frag Float) => f) p fr lw
+    if own.2 == rws && showOf own.1 == res then "smawk=1" else s!"smawk=0[{showOf own.1}:{showNats own.2}]"
+  if shapeOnly then s!"{res};{sm}" else
   let (shape, minimal) := checkMinima p lw fr rws
   let n := fr.length
   let W := prefixWidths fr
   let dReal := ((dpTable p lw fr W (fun j => rws.getD j 0) n).getD n (0, 0)).1
   let dNaive := (((naiveMinima p lw fr W n).1).getD n (0, 0)).1
-  s!"{res};shape={if shape then 1 else 0};minimal={if minimal then 1 else 0};costeq={if dReal == dNaive then 1 else 0}"
+  s!"{res};shape={if shape then 1 else 0};minimal={if minimal then 1 else 0};costeq={if dReal == dNaive then 1 else 0};{sm}"
 
 def handle (crude : Bool) (line : String) : String :=
   match line.splitOn "|" with
